@@ -12,12 +12,21 @@
     constructor (or `gen_range`) call made by `dist_sample` holds — none of the eleven `unwrap`s
     and none of the `gen_range` assertions can fire.
   * Uniform: the constant fast path and the range facts `gen_range` relies on.
+  * Uniform promptness: `C13_uniform_quarter_terminates` — for every validated range with
+    `low ≠ high` and EVERY word whose unit value `v = (w >> 12)·2^-52` is `≤ 1/4` the
+    `sample_single` retry loop ends at once (`fl(fl(v·fl(high−low)) + low) < high`, all three
+    roundings, subnormal and mixed-sign ranges included); `C13_uniform_prompt`: at least
+    `2^50 + 1` of the `2^52` equally likely mantissa values end an iteration, whatever the 12
+    discarded bits are, so under a fair stream each iteration ends with probability `> 1/4` and
+    the expected number of iterations is `< 4`.  The constant is sharp
+    (`C13_uniform_quarter_sharp`: `v = 1/4 + 2^-52` is rejected for a pair of adjacent doubles).
 
   Not covered by any theorem (stated in DESIGN §6/§11): termination and panic-freedom INSIDE
   rand_distr's samplers; they are exercised by the harness under a watchdog.
 -/
 import MbVerif.Proofs.Sample
 import MbVerif.Proofs.Validate
+import MbVerif.Proofs.UniformPrompt
 
 namespace Mb.C13
 open Mb Mb.Fp
@@ -156,5 +165,86 @@ theorem C13_uniform_top_bit_claim_false :
     uniformF64 0x0020000000000001 0x0020000000000002 0x4000000000000000 =
       some (val64 0x0020000000000001) := by
   refine ⟨by decide +kernel, by decide +kernel, by decide +kernel, by decide +kernel⟩
+
+/-! ### Uniform: a real promptness bound -/
+
+/-- **promptness**: for every Uniform range accepted by validation with `low ≠ high` and EVERY
+    64-bit word whose unit value `unit64 w = (w >> 12)·2^-52` is at most `1/4`, the
+    `sample_single` retry loop ends at once -/
+theorem C13_uniform_quarter_terminates (lo hi : F64)
+    (h : Validate.distType (.uniform lo hi) = true)
+    (hne : feq (val64 lo) (val64 hi) = false) (w : UInt64) (hw : unit64 w ≤ 1 / 4) :
+    (uniformF64 lo hi w).isSome = true :=
+  uniformF64_quarter h hne w hw
+
+/-- the same on the retry loop: such a word is the last one consumed, and the value returned is
+    in `[low, high)` -/
+theorem C13_uniform_quarter_loop (lo hi : F64) (h : Validate.distType (.uniform lo hi) = true)
+    (hne : feq (val64 lo) (val64 hi) = false) (w : UInt64) (hw : unit64 w ≤ 1 / 4)
+    (ws : List UInt64) (n : Nat) :
+    ∃ v, uniformF64Loop lo hi (w :: ws) n = some (v, n + 1) ∧
+      le (val64 lo) v = true ∧ lt v (val64 hi) = true := by
+  have hsome := C13_uniform_quarter_terminates lo hi h hne w hw
+  obtain ⟨v, hv⟩ := Option.isSome_iff_exists.mp hsome
+  refine ⟨v, by simp [uniformF64Loop, hv], ?_, C13_uniform_lt_high lo hi w v hv⟩
+  have hge := C13_uniform_ge_low lo hi h hne w
+  unfold uniformF64 at hv
+  split at hv
+  · injection hv with hv; rw [← hv]; exact hge
+  · exact absurd hv (by simp)
+
+/-- every mantissa value `m ≤ 2^50` ends the loop, whatever the 12 discarded bits `r` are -/
+theorem C13_uniform_prompt_words (lo hi : F64) (h : Validate.distType (.uniform lo hi) = true)
+    (hne : feq (val64 lo) (val64 hi) = false) (m r : Nat) (hm : m ≤ 2 ^ 50) (hr : r < 2 ^ 12) :
+    (uniformF64 lo hi (UInt64.ofNat (m * 2 ^ 12 + r))).isSome = true := by
+  apply C13_uniform_quarter_terminates lo hi h hne
+  rw [unit64_word m r (by omega) hr]
+  rw [div_le_iff₀ (by positivity)]
+  have : (m : ℚ) ≤ ((2 ^ 50 : Nat) : ℚ) := by exact_mod_cast hm
+  push_cast at this
+  linarith
+
+/-- **counting form**: for every valid non-constant range, and whatever the 12 discarded low
+    bits `r` of the word are, at least `2^50 + 1` of the `2^52` equally likely mantissa values end
+    the iteration — more than a quarter of them, so under a fair stream every iteration ends with
+    probability `> 1/4` and the expected number of iterations is `< 4` -/
+theorem C13_uniform_prompt (lo hi : F64) (h : Validate.distType (.uniform lo hi) = true)
+    (hne : feq (val64 lo) (val64 hi) = false) (r : Nat) (hr : r < 2 ^ 12) :
+    2 ^ 50 + 1 ≤ ((Finset.range (2 ^ 52)).filter
+      (fun m => (uniformF64 lo hi (UInt64.ofNat (m * 2 ^ 12 + r))).isSome = true)).card ∧
+    2 ^ 52 < 4 * ((Finset.range (2 ^ 52)).filter
+      (fun m => (uniformF64 lo hi (UInt64.ofNat (m * 2 ^ 12 + r))).isSome = true)).card := by
+  have hsub : Finset.range (2 ^ 50 + 1) ⊆ (Finset.range (2 ^ 52)).filter
+      (fun m => (uniformF64 lo hi (UInt64.ofNat (m * 2 ^ 12 + r))).isSome = true) := by
+    intro m hm
+    rw [Finset.mem_range] at hm
+    rw [Finset.mem_filter, Finset.mem_range]
+    exact ⟨by omega, C13_uniform_prompt_words lo hi h hne m r (by omega) hr⟩
+  have hcard := Finset.card_le_card hsub
+  rw [Finset.card_range] at hcard
+  exact ⟨hcard, by omega⟩
+
+/-- non-vacuity on concrete ranges (kernel evaluation of the model): the word with `v = 1/4` is
+    accepted by validated ranges of adjacent subnormal-grid doubles, of mixed sign (`-1.0..2.0`)
+    and of full width (`0.0..f64::MAX`) -/
+example :
+    unit64 0x4000000000000000 = 1 / 4 ∧
+    Validate.distType (.uniform 0x0020000000000001 0x0020000000000002) = true ∧
+    (uniformF64 0x0020000000000001 0x0020000000000002 0x4000000000000000).isSome = true ∧
+    Validate.distType (.uniform 0xbff0000000000000 0x4000000000000000) = true ∧
+    uniformF64 0xbff0000000000000 0x4000000000000000 0x4000000000000000 = some (.fin (-1 / 4)) ∧
+    Validate.distType (.uniform 0 0x7fefffffffffffff) = true ∧
+    (uniformF64 0 0x7fefffffffffffff 0x4000000000000000).isSome = true := by
+  refine ⟨by decide +kernel, by decide +kernel, by decide +kernel, by decide +kernel,
+    by decide +kernel, by decide +kernel, by decide +kernel⟩
+
+/-- the constant `1/4` is sharp: for the adjacent doubles `2^-1021·(1+2^-52)`, `2^-1021·(1+2^-51)`
+    the very next mantissa value `v = 1/4 + 2^-52` is rejected (`v·scale` rounds up to one
+    subnormal step, `res` lands on the midpoint and ties to the even neighbour `high`) -/
+theorem C13_uniform_quarter_sharp :
+    Validate.distType (.uniform 0x0020000000000001 0x0020000000000002) = true ∧
+    unit64 0x4000000000001000 = 1 / 4 + 1 / 2 ^ 52 ∧
+    uniformF64 0x0020000000000001 0x0020000000000002 0x4000000000001000 = none := by
+  refine ⟨by decide +kernel, by decide +kernel, by decide +kernel⟩
 
 end Mb.C13
